@@ -3,6 +3,7 @@ module verifharness
 go 1.23.0
 
 require (
+	github.com/go-logr/logr v1.4.2
 	github.com/jcmoraisjr/haproxy-ingress v0.0.0
 	github.com/kylelemons/godebug v1.1.0
 	k8s.io/api v0.32.3
@@ -25,7 +26,6 @@ require (
 	github.com/evanphx/json-patch/v5 v5.9.11 // indirect
 	github.com/fsnotify/fsnotify v1.8.0 // indirect
 	github.com/fxamacker/cbor/v2 v2.7.0 // indirect
-	github.com/go-logr/logr v1.4.2 // indirect
 	github.com/go-logr/zapr v1.3.0 // indirect
 	github.com/go-openapi/jsonpointer v0.21.0 // indirect
 	github.com/go-openapi/jsonreference v0.21.0 // indirect
